@@ -5,6 +5,7 @@ go 1.23.0
 require (
 	github.com/anishathalye/porcupine v1.3.0
 	github.com/git-lfs/git-lfs/v3 v3.0.0
+	golang.org/x/sys v0.31.0
 )
 
 require (
@@ -29,7 +30,6 @@ require (
 	github.com/ssgelm/cookiejarparser v1.0.1 // indirect
 	golang.org/x/crypto v0.36.0 // indirect
 	golang.org/x/net v0.38.0 // indirect
-	golang.org/x/sys v0.31.0 // indirect
 	golang.org/x/text v0.23.0 // indirect
 )
 
